@@ -16,8 +16,8 @@ CTXMSG = "client::message::ContextMessage"
 
 
 class Ctx:
-    def __init__(self, facts_path, tier="quick", release_facts_path=None, info=None):
-        self.facts = Facts(facts_path)
+    def __init__(self, facts_path, tier="quick", release_facts_path=None, info=None, facts=None):
+        self.facts = facts if facts is not None else Facts(facts_path)
         self.world = World(self.facts)
         self.tier = tier
         self.info = info or {}
